@@ -574,7 +574,7 @@ func (e *topoEngine) Exec(ops []string) []string {
 type catEngine struct{}
 
 func (e *catEngine) Rule() string {
-	return "C24: start from a random partition (2-4 adjacent regions, bounded or unbounded ends) on a real Store with a manifest; random split (valid and invalid split keys, child end = parent end), merge (any ordered pair: left/right neighbour, non-adjacent, self, missing), remove, state change, reopen; probes of covered/uncovered keys after every mutation; non-trivial = at least one successful split and one successful merge"
+	return "C24: (incl. splits whose child cannot be started, which must roll back) start from a random partition (2-4 adjacent regions, bounded or unbounded ends) on a real Store with a manifest; random split (valid and invalid split keys, child end = parent end), merge (any ordered pair: left/right neighbour, non-adjacent, self, missing), remove, state change, reopen; probes of covered/uncovered keys after every mutation; non-trivial = at least one successful split and one successful merge"
 }
 
 func (e *catEngine) Gen(r *hlib.Rand, tier string) []string {
@@ -627,6 +627,11 @@ func (e *catEngine) Gen(r *hlib.Rand, tier string) []string {
 			ops = append(ops, fmt.Sprintf("cat.split %d %d %s @ %d %d", parent, nextID, hlib.Hex(key), 1+r.Intn(2), 1))
 			nextID++
 			probe()
+		case x < 42:
+			ops = append(ops, fmt.Sprintf("cat.splitfail %d %d %s", 1+r.Intn(nextID), nextID, hlib.Hex(hlib.Pick(r, probes))))
+			nextID++
+			probe()
+			ops = append(ops, "cat.snap")
 		case x < 70:
 			t := 1 + r.Intn(nextID)
 			s := 1 + r.Intn(nextID)
@@ -761,6 +766,19 @@ func (e *catEngine) Exec(ops []string) []string {
 			}
 			child := &pb.RegionMeta{Id: cid, StartKey: hlib.UnHex(f[3]), EndKey: end, EpochVersion: ver, EpochConfVersion: conf,
 				Peers: []*pb.RegionPeer{{StoreId: storeID, PeerId: 1000 + cid}}}
+			out[i] = okErr(rs.VerifApplyAdmin(&pb.AdminCommand{Type: pb.AdminCommand_SPLIT,
+				Split: &pb.SplitCommand{ParentRegionId: parent, SplitKey: hlib.UnHex(f[3]), Child: child}}))
+		case "cat.splitfail":
+			parent, _ := strconv.ParseUint(f[1], 10, 64)
+			cid, _ := strconv.ParseUint(f[2], 10, 64)
+			var end []byte
+			if pm, ok := rs.RegionMetaByID(parent); ok {
+				end = pm.EndKey
+			}
+			// the child has no replica on this store: the peer builder refuses it after the
+			// parent was already shrunk, so SplitRegion must roll the parent back
+			child := &pb.RegionMeta{Id: cid, StartKey: hlib.UnHex(f[3]), EndKey: end, EpochVersion: 1, EpochConfVersion: 1,
+				Peers: []*pb.RegionPeer{{StoreId: storeID + 1, PeerId: 2000 + cid}}}
 			out[i] = okErr(rs.VerifApplyAdmin(&pb.AdminCommand{Type: pb.AdminCommand_SPLIT,
 				Split: &pb.SplitCommand{ParentRegionId: parent, SplitKey: hlib.UnHex(f[3]), Child: child}}))
 		case "cat.merge":
